@@ -798,6 +798,19 @@ func pureLibRun(tape *rt.Tape) RunRecord {
 		if (op.Kind == "validate" || op.Kind == "serialize") && len(pool) > 0 {
 			op.Arg = pool[tape.Choose("pl.pool", len(pool))]
 		}
+		if (op.Kind == "validate" || op.Kind == "serialize") && tape.Choose("pl.structarg", 4) == 3 {
+			// a struct value the caller built itself (not a result of Unserialize): it may break rules
+			sv := libRoot{Name: "direct", Size: 5, Wait: 3}
+			switch tape.Choose("pl.structexcl", 4) {
+			case 1:
+				sv.Excl = "e"
+			case 2:
+				sv.Other = "o"
+			case 3:
+				sv.Excl, sv.Other = "e", "o"
+			}
+			op.Arg = sv
+		}
 		history = append(history, op.Kind+"("+short(op.Arg)+")")
 		snapshot := deepCopyValue(op.Arg)
 		modes := []orderMode{{"natural", 0}, {"random", uint64(tape.Choose("pl.perm", 1<<30))}, {"reverse", 0}}
